@@ -43,3 +43,13 @@ def register(reg):
     ns.assumes_inv, ns.maintains_inv = True, False
     ns.requires = list(ns.requires) + [('heights', 'height >= 0 and self.db.state.height >= 0')]
     ns.modifies = list(ns.modifies) + ['self.g_raw_height']
+
+    # the flag handed to every session says whether the height differs from the one last notified (a header subscriber is told
+    # the new tip exactly then), and the cached header is refreshed exactly then
+    CHANGED = '(is_none(old(self.notified_height)) or some(old(self.notified_height)) != height)'
+    ns.ghost[('after', 'await group.spawn(session.notify, touched, height_changed)')] = \
+        list(ns.ghost.get(('after', 'await group.spawn(session.notify, touched, height_changed)'), [])) + \
+        ['check("sessions-are-told-whether-the-height-changed", height_changed == ' + CHANGED + ')']
+    ns.ensures.append(('header-result-refreshed-exactly-when-the-height-changed',
+                       'implies(' + CHANGED + ', some(self.notified_height) == min(height, self.db.state.height)) and '
+                       'implies(not ' + CHANGED + ', self.notified_height == old(self.notified_height))'))
